@@ -165,6 +165,7 @@ func (s *TunnelServiceHandler) openReverseTunnel(stream tunnelpb.TunnelService_O
 
 	ch := newReverseChannel(stream, &s.tunnelOpts, s.unregister)
 	defer ch.Close()
+	verifYield("rev.open.created")
 
 	var key interface{}
 	if s.affinityKey != nil {
@@ -173,6 +174,7 @@ func (s *TunnelServiceHandler) openReverseTunnel(stream tunnelpb.TunnelService_O
 
 	s.reverse.add(ch, key)
 	defer s.reverse.remove(ch)
+	verifYield("rev.open.betweenAdds")
 
 	rc := s.reverseChannelsForKey(key)
 	rc.add(ch, key)
@@ -195,6 +197,7 @@ func (s *TunnelServiceHandler) unregister(ch *tunnelChannel) {
 		// already removed
 		return
 	}
+	verifYield("rev.unregister.between")
 
 	s.mu.Lock()
 	rc := s.reverseByKey[k]
